@@ -75,13 +75,15 @@ type config struct {
 	// milliseconds instead of 1h. EventLatencyMS delays the upstream's answer to /v2/event (the internal statser's
 	// start / stop events). InternalStatser leaves statser-type at its default. BadUTF8 sends, in every invocation,
 	// a UDP datagram whose set member / tag is not valid UTF-8 (the parser accepts it; protobuf cannot carry it).
-	TimerMS         int      `json:"forwarder_timer_ms,omitempty"`
-	EventLatencyMS  int      `json:"upstream_event_latency_ms,omitempty"`
-	InternalStatser bool     `json:"internal_statser,omitempty"`
-	BadUTF8         bool     `json:"bad_utf8_datagrams,omitempty"`
-	Binary          bool     `json:"real_binary,omitempty"`
-	ManualFlushKey  string   `json:"manual_flush_key,omitempty"`
-	DynHeaders      []string `json:"dynamic_headers_in_file,omitempty"`
+	// SubscribeLatencyMS delays the runtime API's answer to the telemetry subscription (a slow control plane).
+	SubscribeLatencyMS int      `json:"telemetry_subscribe_latency_ms,omitempty"`
+	TimerMS            int      `json:"forwarder_timer_ms,omitempty"`
+	EventLatencyMS     int      `json:"upstream_event_latency_ms,omitempty"`
+	InternalStatser    bool     `json:"internal_statser,omitempty"`
+	BadUTF8            bool     `json:"bad_utf8_datagrams,omitempty"`
+	Binary             bool     `json:"real_binary,omitempty"`
+	ManualFlushKey     string   `json:"manual_flush_key,omitempty"`
+	DynHeaders         []string `json:"dynamic_headers_in_file,omitempty"`
 }
 
 // ---------------------------------------------------------------------------------------------
@@ -134,6 +136,9 @@ func (w *world) runtimeHandler(rw http.ResponseWriter, req *http.Request) {
 		w.mu.Lock()
 		w.subscribe++
 		w.mu.Unlock()
+		if w.cfg.SubscribeLatencyMS > 0 {
+			time.Sleep(time.Duration(w.cfg.SubscribeLatencyMS) * time.Millisecond) // control-plane latency, not synchronisation
+		}
 		rw.WriteHeader(200)
 	case strings.HasSuffix(req.URL.Path, "/extension/event/next"):
 		st := w.r.Stamp()
@@ -376,18 +381,34 @@ func runExecution(r *mon.Run, cfg config) {
 		runScriptedStartupFailure(r, cfg)
 		return
 	}
+	if cfg.Binary && cfg.Failure != "" {
+		// Cold starts of the executable run on real time, and a defect in how the start-up window is kept may
+		// show in a fraction of them only: several cold starts; a failing one must reproduce (up to as many
+		// further cold starts) before it is reported.
+		for trial := 0; trial < 5; trial++ {
+			if runOnce(r, cfg, false) != "startup-failure" {
+				continue
+			}
+			before := r.Violations()
+			for again := 0; again < 6 && r.Violations() == before; again++ {
+				runOnce(r, cfg, true)
+			}
+			if r.Violations() == before {
+				r.Inconclusive("not-reproduced:startup-failure")
+			}
+			return
+		}
+		return
+	}
 	code := runOnce(r, cfg, false)
 	if code == "" {
 		return
 	}
-	// bounded progress / wall-clock dependent start-up: reproduce once before reporting
-	switch again := runOnce(r, cfg, true); {
-	case strings.HasPrefix(again, "wedged:"):
+	// bounded progress: reproduce once before reporting
+	if again := runOnce(r, cfg, true); strings.HasPrefix(again, "wedged:") {
 		r.Violation("extension-"+again, fmt.Sprintf("the extension never sent the GET event/next that %s, although every upstream request had been answered and the upstream had been idle for more than 30 s; reproduced by a second run of the same execution [%+v]", strings.TrimPrefix(again, "wedged:"), cfg), map[string]interface{}{"config": cfg})
 		r.Eval(1)
-	case again == "" && code == "startup-failure":
-		// reported (or not reproduced) inside the confirming run
-	default:
+	} else {
 		r.Inconclusive("not-reproduced:" + code)
 	}
 }
@@ -879,6 +900,9 @@ func runOnce(r *mon.Run, cfg config, confirm bool) (wedged string) {
 			viol("datapoint-in-two-bodies", fmt.Sprintf("datapoint %s is in %d distinct upstream bodies", s.id, len(bs)))
 		default:
 			first, last := bs[0].attempts[0], bs[0].attempts[len(bs[0].attempts)-1]
+			if bs[0].script == "retry" && cfg.WindowMS >= 30000 && last.end != 0 && last.status >= 300 {
+				viol("refused-once-and-never-offered-again", fmt.Sprintf("datapoint %s: the only request that carried it was answered %d (upstream script: refuse once, then accept); with a %d ms retry window it was never offered again, yet GET event/next #%d was sent (attempts %d)", s.id, last.status, cfg.WindowMS, ph.get, len(bs[0].attempts)))
+			}
 			if last.end == 0 || last.end > g {
 				viol("next-requested-before-delivery-finished", fmt.Sprintf("datapoint %s acknowledged at stamp %d before runtime-done (stamp %d): its upstream delivery attempt ended at stamp %d (began %d, %d attempts, script %s) but GET event/next #%d arrived at stamp %d", s.id, s.ack, ph.done, last.end, first.begin, len(bs[0].attempts), bs[0].script, ph.get, g))
 			}
@@ -1016,6 +1040,9 @@ func TestCheck(t *testing.T) {
 					// a start-up failure after the statser exists, the default statser, an upstream slower than
 					// the extension's 100 ms start-up window for the statser's events
 					cfg.Failure, cfg.InternalStatser, cfg.EventLatencyMS = "http-server", true, 300+rng.Intn(500)
+				case 3:
+					// a start-up failure while the runtime API is slow to confirm the telemetry subscription
+					cfg.Failure, cfg.SubscribeLatencyMS = []string{"endpoint", "compression", "http-server"}[rng.Intn(3)], 150+rng.Intn(300)
 				}
 			}
 			if i%2 == 1 {
